@@ -345,6 +345,12 @@ func blockOnListChangeWorker(
 			defer ctx.cs.releaseCapture()
 			verifPoint("before-wait", ctx.cs)
 
+			// a close request that arrived before the capture could not unblock anything: do not
+			// start waiting on a connection that is being closed
+			if ctx.cs.client.IsCloseRequested() {
+				return true
+			}
+
 			select {
 			case reason := <-unblockCh:
 				// abort this command - connectivity lost, or explicitly unblocked via another client
